@@ -12,9 +12,13 @@ vars == <<sc, e>>
 Gens == <<IdM, Rz90, Rx90, Ry90, MulMM(Rz90, Rx90), MulMM(Rx90, Rx90)>>
 RotN(k) == Gens[(k % 6) + 1]
 LeafLen(i, lenmode) == CASE lenmode = 1 -> 1 [] lenmode = 2 -> 1 + (i % 3) [] lenmode = 3 -> 3
-LeafPath(i, lenmode) == LET n == LeafLen(i, lenmode) IN
-    [pos |-> [m \in 1..n |-> <<i - 2 * m, m + 1, 2 * i - 3>>], ori |-> [m \in 1..n |-> RotN(i + 2 * m)]]
-Leaf(i, pp) == [kind |-> "leaf", id |-> i, tag |-> (IF pp > 3 THEN 1 + (i % 2) ELSE i), path |-> LeafPath(i, IF pp > 3 THEN 2 ELSE pp)]
+\* orimode 0: orientations from the palette; 1: a rotation and its INVERSE alternate along the path (and between neighbouring leaves),
+\* so that quaternion components cancel in sums and differ only by signs
+LeafPath(i, lenmode, orimode) == LET n == LeafLen(i, lenmode) IN
+    [pos |-> [m \in 1..n |-> <<i - 2 * m, m + 1, 2 * i - 3>>],
+     ori |-> [m \in 1..n |-> IF orimode = 0 THEN RotN(i + 2 * m) ELSE (IF (i + m) % 2 = 0 THEN Rz90 ELSE Tr(Rz90))]]
+Leaf(i, pp) == [kind |-> "leaf", id |-> i, tag |-> (IF pp = 4 THEN 1 + (i % 2) ELSE i),
+                path |-> LeafPath(i, IF pp > 3 THEN 2 ELSE pp, IF pp = 5 THEN 1 ELSE 0)]
 Coll(kids) == [kind |-> "coll", kids |-> kids]
 SensIn == [kind |-> "sens"]
 
